@@ -35,8 +35,12 @@ type shapeObs struct {
 var shapePaths = map[string]string{
 	"pred": "ex.p", "seq": "ex.p / ex.q", "alt": "ex.p | ex.q", "inverse": "ex.p^", "altInSeq": "ex.p / (ex.q | ex.r)",
 	"seqInAlt": "(ex.p / ex.q) | ex.r", "type": "@type", "altMixedInverse": "ex.p | ex.q^", "seq3": "ex.p / ex.q / ex.r",
-	"altOfAlt": "(ex.p | ex.q) | (ex.r | ex.p^)",
+	"altOfAlt": "(ex.p | ex.q) | (ex.r | ex.p^)", "underscore": "ex.has_name / ex.x_y_z",
 }
+
+// regular expressions a profile may legitimately use (the pattern is pasted into the policy by the translator)
+var shapePatterns = []string{"^[a-z]+$", "a`b", "^\\d+\"x\"$", "100%", "back\\\\slash", "`", "'quoted'"}
+var shapeRot = 0
 
 var shapeTexts = []string{"", " bell\a", " esc\x1b[31m red", " tag\U000E0067", " q\"uote", " back\\slash", " 100%", " {{ex.p}} and %", " tab\tnew\nline", " vt\v del\x7f"}
 
@@ -49,9 +53,9 @@ func leafConstraint(kind string) map[string]any {
 	case "minCount", "maxCount", "exactCount", "minLength", "maxLength", "exactLength":
 		return map[string]any{kind: 2}
 	case "pattern":
-		return map[string]any{"pattern": "^[a-z]+$"}
+		return map[string]any{"pattern": shapePatterns[shapeRot%len(shapePatterns)]}
 	case "in", "containsAll", "containsSome":
-		return map[string]any{kind: []any{"a", "b", 3}}
+		return map[string]any{kind: []any{"a", "b", 3, "$message", "$node and $result", true}}
 	case "minInclusive", "maxInclusive", "minExclusive", "maxExclusive":
 		return map[string]any{kind: 5}
 	case "minInclusiveFloat":
@@ -80,6 +84,7 @@ func quantWrap(q string, inner map[string]any) map[string]any {
 }
 
 func renderShape(c shapeCase) string {
+	shapeRot = c.Siblings + c.Depth + c.Validations + len(c.Ctx) + len(c.Path)
 	leaf := map[string]any{"propertyConstraints": map[string]any{shapePaths[c.Path]: leafConstraint(c.Kind)}}
 	pcs := map[string]any{}
 	for s := 1; s <= c.Siblings; s++ {
